@@ -470,10 +470,14 @@ fn ki8_copy_refuses_a_borrowed_window() {
     source.avail_out = 4;
     source.next_in = input.as_ptr() as *mut u8;
     source.avail_in = 4;
-    let mut dest = core::mem::MaybeUninit::<InflateStream>::uninit();
+    let mut dest = core::mem::MaybeUninit::<InflateStream>::zeroed();
     let rc = unsafe { copy(&mut dest, &source) };
     assert!(rc == ReturnCode::StreamError, "a stream that borrows the caller's window cannot be copied");
     assert!(ctx.free_calls == 0);
+    // the refused destination does not alias the source's state: ending it (as callers do on their error path) must not
+    // release the source's block
+    let dest_state = unsafe { core::ptr::read(core::ptr::addr_of!((*dest.as_ptr()).state) as *const *const State) };
+    assert!(dest_state.is_null(), "a refused copy leaves the destination without a state");
     core::mem::forget(source);
     core::mem::forget(state);
 }
